@@ -16,6 +16,21 @@ import z3
 from mir import Place, Operand, Function
 
 
+def duration_literal(callee, lits):
+    """Duration::from_secs(n) / from_millis(n) with a literal n -> a Duration in ticks of the virtual clock
+    (1 tick = 1 s; sub-second literals round up to one tick, zero stays zero)"""
+    m = re.search(r'(?:^|::)Duration::from_(secs|millis|micros|nanos)$', callee)
+    if not m or len(lits) != 1:
+        return None
+    mn = re.fullmatch(r'(\d+)_?(?:[iu](?:8|16|32|64|128|size))?', lits[0].strip())
+    if not mn:
+        return None
+    n = int(mn.group(1))
+    div = {'secs': 1, 'millis': 1000, 'micros': 10 ** 6, 'nanos': 10 ** 9}[m.group(1)]
+    ticks = 0 if n == 0 else max(1, -(-n // div))
+    return VAgg(name='Duration', extra={'ticks': ticks})
+
+
 class Unsupported(Exception):
     pass
 
@@ -360,6 +375,11 @@ class Engine:
         raise Unsupported(f"deref of {val!r}")
 
     def get_field(self, val, key):
+        if key[0] == 'item':
+            # element i of a modelled sequence (Vec / VecDeque keep their elements in extra['items'])
+            if isinstance(val, VAgg) and val.extra and 'items' in val.extra and key[1] < len(val.extra['items']):
+                return val.extra['items'][key[1]]
+            raise Unsupported(f"element {key[1]} of {val!r}")
         if isinstance(val, VAgg):
             if key in val.fields:
                 return val.fields[key]
@@ -388,6 +408,10 @@ class Engine:
             return val
         cur = self.get_field(val, key)
         sub = self.set_path(st, cur, path[1:], new)
+        if key[0] == 'item':
+            items = list(val.extra['items'])
+            items[key[1]] = sub
+            return VAgg(val.name, val.vname, val.disc, val.fields, val.base, {**val.extra, 'items': tuple(items)})
         if isinstance(val, VAgg):
             return val.with_field(key, sub)
         if isinstance(val, VSym):
@@ -551,6 +575,12 @@ class Engine:
             # a path to a literal constant item of the crate (`const YIELD_EVERY: usize = 32;`)
             key = strip_generics(c).split('::')[-1]
             lit = consts.get(key)
+            if isinstance(lit, tuple):
+                # constant item initialised by one call with literal arguments: durations are the only kind modelled
+                v = duration_literal(lit[1], lit[2])
+                if v is not None:
+                    return v
+                lit = None
             if lit is not None and re.fullmatch(r'[\w:<>, ]+', c.strip()):
                 if lit in ('true', 'false'):
                     return VScalar(lit == 'true')
